@@ -616,6 +616,14 @@ func (g *gfsRun) step(f *gfsFile, op *Op, shared bool) {
 			err = f.stream.Close()
 			e.logf("[file %d] close again -> %v", f.id, err)
 			e.probe("close-retried")
+			if err != nil {
+				// the statement does not promise that a failed Close can be retried (today a tracked upload whose
+				// marker insert was the failed write cannot: "unable to update marker"); an upload may fail, it
+				// may never complete with wrong bytes, and Abort must still leave nothing behind
+				e.probe("close-retry-failed")
+				g.abortAfterFault(f, "Close (retried)")
+				return
+			}
 		}
 		if isInjected(err) {
 			g.abortAfterFault(f, "Close")
